@@ -46,13 +46,18 @@ func VerifHarness_C16_CompilerAcceptsExactlyWithinBounds() {
 }
 
 // C16: ... wherever the call stands: as the right operand of an operator, inside an indexer, as an argument of another
-// call, in parentheses - each of which is compiled by a visitor of its own.
+// call, in parentheses - each of which is compiled by a visitor of its own - and whether the name is written plainly
+// or as a delimited identifier.
 func VerifHarness_C16_AcceptanceDoesNotDependOnThePlace() {
 	table := funcs.Clone()
 	name := []string{"count", "where", "iif", "substring", "noSuchFunction"}[verifrt.Choose("name", 5)]
 	fn, known := table[name]
 	n := verifrt.Choose("args", 5)
-	res := verifCompileCall(table, name, n, 1+verifrt.Choose("place", 5), verifrt.NondetBool("dotted"))
+	written := name
+	if verifrt.NondetBool("delimited") {
+		written = "`" + name + "`" // `count`() is count()
+	}
+	res := verifCompileCall(table, written, n, verifrt.Choose("place", 6), verifrt.NondetBool("dotted"))
 	want := known && n >= fn.MinArity && n <= fn.MaxArity
 	verifrt.Assert((res.Error == nil && res.Result != nil) == want, "call-accepted-iff-name-known-and-argument-count-within-bounds")
 	verifrt.Reach("end")
